@@ -317,9 +317,9 @@ Fixpoint move_children (mv : tree -> path -> path -> option (res * tree * hs)) (
   end.
 
 (* move(src, dest): MkDir(Dir(dest)); Rename; if the rename is refused (e.g. across devices): IsDir(src) — or of dest: a fact —
-   chooses moveFolder (MkDir(dest), IsEmpty, Ls, loop, then Remove(src) — also when src was empty, or not: a fact) or
+   (a missing path: 'not found') chooses moveFolder (MkDir(dest), IsEmpty, Ls, loop, then Remove(src) — also when src was empty, or not: a fact) or
    moveFile (copy, then remove). *)
-Fixpoint m_move_raw (fa : facts) (fuel : nat) (t : tree) (s d : path) {struct fuel} : option (res * tree * hs) :=
+Fixpoint m_move_raw (fa : facts) (xdev : bool) (fuel : nat) (t : tree) (s d : path) {struct fuel} : option (res * tree * hs) :=
   match fuel with
   | O => None
   | S f =>
@@ -328,19 +328,20 @@ Fixpoint m_move_raw (fa : facts) (fuel : nat) (t : tree) (s d : path) {struct fu
         let '(r1, t1, h1) := m_mkdir3 t (parent d) in
         match r1 with
         | ROk =>
-            match b_rename t1 s d with
+            match (if xdev then None else b_rename t1 s d) with       (* xdev: the back end refuses every rename, as across devices *)
             | Some t2 => Some (ROk, t2, hb h1)
             | None =>
-                let '(es, h2) := m_exists t1 s in
-                if negb es then Some (RErr ENotFound, t1, hb (h1 + h2))
-                else if is_dir_b t1 (if f_move_fallback_isdir_src fa then s else d) then
+                let k := if f_move_fallback_isdir_src fa then s else d in      (* IsDir(<which>): a fact *)
+                let '(ek, h2) := m_exists t1 k in
+                if negb ek then Some (RErr ENotFound, t1, hb (h1 + h2))
+                else if is_dir_b t1 k then
                   let '(r2, t2, h3) := m_mkdir3 t1 d in
                   match r2 with
                   | ROk =>
                       let empty := m_empty_b t2 s in
                       let looped :=
                         if empty then Some (ROk, t2, hb (h1 + h2 + h3 + 1))
-                        else move_children (m_move_raw fa f) s d (b_readdirnames t2 s) t2 (hb (h1 + h2 + h3 + 2)) in
+                        else move_children (m_move_raw fa xdev f) s d (b_readdirnames t2 s) t2 (hb (h1 + h2 + h3 + 2)) in
                       match looped with
                       | Some (ROk, t3, h4) =>
                           if f_movefolder_always_removes_src fa || negb empty then
@@ -398,7 +399,7 @@ Fixpoint m_move_guards (fa : facts) (gs : list mguard) (t : tree) (s : path) (st
 Definition m_move (fa : facts) (fuel : nat) (t : tree) (s : path) (str : bool) (d : path) (dtr : bool) : option (res * tree * hs) :=
   match m_move_guards fa (f_move_guards fa) t s str d dtr (mkMs d O) with
   | inl (r, h) => Some (r, t, hb h)
-  | inr st => match m_move_raw fa fuel t s (ms_target st) with
+  | inr st => match m_move_raw fa false fuel t s (ms_target st) with
               | Some (r, t', h4) => Some (r, t', hb (ms_h st) +h h4)
               | None => None
               end
